@@ -320,6 +320,11 @@ static void op_simplex(void) {
       margin_note("converges|NelderMeadSimplex", gap / allow);
       snprintf(key, sizeof key, "converges|NelderMeadSimplex|%s", cls);
       vx_check(gap <= allow || !stagnated, key, "%s: f(best) - f* = %.3g > %.3g and no progress in the last 10%% of %zu iterations (f(x0) - f* = %.3g)", tag, gap, allow, budget, f0 - Q.c);
+      /* and it gets there within the budget of 4000*dim iterations: on these quadratics (kappa <= 100, dim <= 6) the documented
+       * adaptive Nelder-Mead needs < 2000 evaluations and ends 6 orders of magnitude below the allowance (measured worst
+       * gap/allowance 5e-6 over both tiers), so a run that is still above it after the whole budget has lost its convergence */
+      snprintf(key, sizeof key, "converges-in-budget|NelderMeadSimplex|%s", cls);
+      vx_check(gap <= allow, key, "%s: after %zu iterations f(best) - f* = %.3g is still above %.3g (f(x0) - f* = %.3g)", tag, budget, gap, allow, f0 - Q.c);
     }
     vx_check(r2 >= Q.c - 1e-9 * fmax(1.0, fabs(Q.c)), "below-minimum|NelderMeadSimplex", "%s: reports %.17g below the minimum %.17g of the objective", tag, r2, Q.c);
     uint64_t h = hv_hash(b2, 140); h = vx_hash_doubles(&r2, 1, h);
